@@ -92,7 +92,18 @@ func genSubmit(rt *rapid.T, jobs []*gjob, graph int) (steps, natural []model.Ste
 		// sized family: V()/E() x every result type
 		st := model.S(rapid.SampledFrom([]string{"V", "V", "E"}).Draw(rt, "famStart"))
 		steps = []model.Step{st}
-		switch rapid.IntRange(0, 7).Draw(rt, "famTerm") {
+		switch rapid.IntRange(0, 11).Draw(rt, "famTerm") {
+		case 8, 10: // a vertex mark and an edge mark, both read only by the resumed part
+			steps = []model.Step{model.S("V"), model.S("as", "a"), model.S(rapid.SampledFrom([]string{"outE", "inE", "bothE"}).Draw(rt, "famEdgeMove")), model.S("as", "b")}
+			natural = []model.Step{model.S("select", "a", "b")}
+			if rapid.IntRange(0, 3).Draw(rt, "famMoveOn") > 0 {
+				steps = append(steps, model.S(rapid.SampledFrom([]string{"out", "in", "both"}).Draw(rt, "famMove")))
+			}
+			return steps, natural
+		case 9, 11:
+			steps = []model.Step{model.S("E"), model.S("as", "b"), model.S(rapid.SampledFrom([]string{"out", "in", "both"}).Draw(rt, "famVertexMove")), model.S("as", "a")}
+			natural = []model.Step{{Op: "render", Template: map[string]interface{}{"a": "$a._gid", "al": "$a._label", "ak": "$a.k", "b": "$b._gid", "bl": "$b._label", "bk": "$b.k"}}}
+			return steps, natural
 		case 0, 1:
 			natural = []model.Step{model.S("out")}
 		case 2:
@@ -151,6 +162,12 @@ func genSuffix(rt *rapid.T, j *gjob) []model.Step {
 		}
 		return nil
 	}
+	if len(j.marks) >= 2 && rapid.IntRange(0, 2).Draw(rt, "allMarks") == 0 {
+		// reads every mark of the stored prefix at once
+		if R := try([]model.Step{model.S("select", j.marks...)}); R != nil {
+			return R
+		}
+	}
 	kind := rapid.IntRange(0, 9).Draw(rt, "suffixKind")
 	var R []model.Step
 	switch {
@@ -184,6 +201,7 @@ func genSuffix(rt *rapid.T, j *gjob) []model.Step {
 		case 5:
 			R = try([]model.Step{model.S("select", mk), model.S("out"), model.S("path")})
 		}
+
 	}
 	if R != nil {
 		return R
@@ -315,6 +333,16 @@ func genOps(rt *rapid.T) []Op {
 			}
 			if len(cand) == 0 {
 				continue
+			}
+			// half of the time one of the jobs that carry several marks, if there is one
+			var multi []int
+			for _, i := range cand {
+				if len(jobs[i].marks) >= 2 {
+					multi = append(multi, i)
+				}
+			}
+			if len(multi) > 0 && rapid.Bool().Draw(rt, "resumeMultiMark") {
+				cand = multi
 			}
 			i := rapid.SampledFrom(cand).Draw(rt, "resumeJob")
 			ops = append(ops, Op{Kind: "resume", Job: i, Steps: genSuffix(rt, jobs[i])})
